@@ -1,6 +1,8 @@
 package drv
 
 import (
+	"crypto/sha256"
+	"encoding/hex"
 	"encoding/json"
 	"fmt"
 	"os"
@@ -24,12 +26,20 @@ type Finding struct {
 	Index      *uint64             `json:"index,omitempty"`
 	Case       json.RawMessage     `json:"case,omitempty"`
 	Cases      map[string][]uint64 `json:"cases,omitempty"` // kind "input": scope name -> case indices
+	InputKeys  []string            `json:"input_keys,omitempty"` // kind "input": inputKey of each failing input (independent of scope names and strides)
 	What       string              `json:"what"`
 }
 
 type findingsFile struct {
 	Findings []Finding `json:"findings"`
 	Fixed    []string  `json:"fixed"`
+}
+
+// inputKey identifies one case by what it feeds the library: a hash of the scope's rendering of the input.
+func inputKey(sc *Scope, idx uint64) string {
+	b, _ := json.Marshal(sc.Show(idx))
+	h := sha256.Sum256(b)
+	return hex.EncodeToString(h[:8])
 }
 
 func loadFindings(verifDir, prop string) ([]Finding, error) {
@@ -162,10 +172,44 @@ func Main(id, tier string) int {
 		remaining[k] = append([]uint64(nil), v...)
 		total += len(v)
 	}
+	if p := os.Getenv("VERIF_DUMP_KEYS"); p != "" && chk.Custom == nil {
+		// development aid for writing a known-findings entry: every violating case with its input key
+		dump := map[string][][2]any{}
+		for name, list := range sum.ViolCases {
+			if _, sc := scopeByName(scopes, name); sc != nil && sc.Show != nil {
+				for _, ix := range list {
+					dump[name] = append(dump[name], [2]any{ix, inputKey(sc, ix)})
+				}
+			}
+		}
+		b, _ := json.Marshal(dump)
+		os.WriteFile(p, b, 0o644)
+	}
 	if total > 0 && chk.Custom == nil {
 		for _, f := range findings {
 			if f.Kind != "input" {
 				continue
+			}
+			if len(f.InputKeys) > 0 {
+				want := map[string]bool{}
+				for _, k := range f.InputKeys {
+					want[k] = true
+				}
+				for name, list := range remaining {
+					_, sc := scopeByName(scopes, name)
+					if sc == nil || sc.Show == nil {
+						continue
+					}
+					var keep []uint64
+					for _, ix := range list {
+						if want[inputKey(sc, ix)] {
+							known[f.ID]++
+						} else {
+							keep = append(keep, ix)
+						}
+					}
+					remaining[name] = keep
+				}
 			}
 			for scope, idxs := range f.Cases {
 				want := map[uint64]bool{}
